@@ -412,6 +412,9 @@ def check(ctx):
     for cfgname in ctx.configs(quick=('base',), thorough=('base', 'wire', 'nostd', 'all')):
         f = ctx.facts(cfgname)
         rep.cur_config = cfgname
+        from . import common as _common
+        _common.check_frame(f, rep, 'C01-R0')
+        _common.check_derives(f, rep, 'C01-R0')
         r1_precedence(ctx, f, rep)
         r2_change_state(ctx, f, rep)
         r3_writers(ctx, f, rep)
